@@ -1,6 +1,7 @@
 package meta
 
 import (
+	"bytes"
 	"errors"
 	"fmt"
 
@@ -254,20 +255,25 @@ func handleObjectWithAssociation(metaBkt *bbolt.Bucket, diff *CountersDiff, curr
 		for _, id := range children {
 			addr.SetObject(id)
 
+			var garbKey = mkGarbageKey(id)
+
 			obj, err := get(metaCursor, addr, false, true, currEpoch)
 			// Garbage mark should be put irrespective of errors,
 			// especially if the error is SplitInfo.
 			if err == nil {
-				if inGarbage(metaCursor, id) == statusAvailable {
+				// Counters must change only once per object: skip objects
+				// that already have a tombstone or any garbage mark.
+				k, _ := metaCursor.Seek(garbKey)
+				if !bytes.Equal(k, garbKey) && inGarbage(metaCursor, id) == statusAvailable {
 					inhumed++
-				}
-				// if object is stored, and it is regular object then update bucket
-				// with container size estimations
-				if obj.Type() == object.TypeRegular {
-					diff.Payload -= int64(obj.PayloadSize())
+					// if object is stored physically (whatever its type is) then
+					// update bucket with container size estimations
+					if string(getObjAttribute(metaCursor, id, object.FilterPhysical)) == binPropMarker {
+						diff.Payload -= int64(obj.PayloadSize())
+					}
 				}
 			}
-			err = metaBkt.Put(mkGarbageKey(id), nil)
+			err = metaBkt.Put(garbKey, nil)
 			if err != nil {
 				return fmt.Errorf("put %s object to garbage bucket: %w", target, err)
 			}
